@@ -236,10 +236,12 @@ func runC01(c *Ctx) {
 			n++
 			idx := describeExpr(f, ix.Index, 0)
 			val := describeExpr(f, as.Rhs[0], 0)
-			if idx == "(range(recv.blobFlushes).count-const:1)" && val == "range(recv.blobFlushes).key" {
+			// the element is named by a range value or, equivalently, indexed by the range key / an index loop
+			el := "recv.blobFlushes[rangekey(recv.blobFlushes)]"
+			if (idx == "(range(recv.blobFlushes).count-const:1)" && val == "range(recv.blobFlushes).key") || (idx == "("+el+".count-const:1)" && val == el+".key") {
 				c.ok("leaf-numbering.placed-by-number", f.ID+":leaves[]", p.Pos(as.Pos()), "leaves[bf.count-1] = bf.key for every collected flush")
 			} else {
-				c.shapeChanged("leaf-numbering.placed-by-number", f.ID+":leaves[]", p.Pos(as.Pos()), f.ID, "Flush stores `"+val+"` at leaves[`"+idx+"`]: leaf keys must be placed by their leaf number, flush goroutines complete in any order")
+				c.fail("leaf-numbering.placed-by-number", f.ID+":leaves[]", p.Pos(as.Pos()), "Flush stores `"+val+"` at leaves[`"+idx+"`]: leaf keys must be placed by their leaf number, flush goroutines complete in any order")
 			}
 			return true
 		})
@@ -742,7 +744,35 @@ func runC02(c *Ctx) {
 			exit: func(blk *cfg.Block, ret *ast.ReturnStmt, s uint64) {},
 		})
 		if !sawCond || nPut == 0 {
-			c.shapeChanged("dedup.skip-exactly-duplicates", f.ID, p.Pos(f.Decl.Pos()), f.ID, "writeBlob no longer branches on `found && !overwrite` from existsAndValidBlob before writing")
+			// the test may be nested (`if found { if !overwrite { return nil } … }`): decide on the guard of the skip instead
+			okSkip, nSkip := true, 0
+			for _, ga := range guardedActions(f, f.Decl.Body) {
+				if ga.Action != "return nil" {
+					continue
+				}
+				hasF, hasNotO, mentions := false, false, false
+				for _, lit := range ga.Guard {
+					if !strings.Contains(lit, "pkg/cafs.existsAndValidBlob(") {
+						continue
+					}
+					mentions = true
+					if strings.HasSuffix(lit, "#0") && !strings.HasPrefix(lit, "!") {
+						hasF = true
+					}
+					if strings.HasSuffix(lit, "#1") && strings.HasPrefix(lit, "!") {
+						hasNotO = true
+					}
+				}
+				if mentions {
+					nSkip++
+					if !(hasF && hasNotO) {
+						okSkip = false
+					}
+				}
+			}
+			c.check(nSkip > 0 && okSkip && nPut > 0, "dedup.skip-exactly-duplicates", f.ID, p.Pos(f.Decl.Pos()),
+				"the write is skipped exactly where the blob was found and need not be overwritten",
+				"writeBlob skips the write under a condition other than `found && !overwrite` from existsAndValidBlob (or no longer skips duplicates): a blob found corrupted is never repaired, or every duplicate is rewritten")
 		} else {
 			c.check(len(badPut) == 0 && len(badDel) == 0, "dedup.skip-exactly-duplicates", f.ID, p.Pos(f.Decl.Pos()),
 				"the blob write is reachable only when the blob is absent or found corrupted; the duplicate branch writes and deletes nothing",
